@@ -688,6 +688,41 @@ func (g *genCtx) lenOffsets(v reflect.Value, maxlen int, omit bool) {
 	}
 }
 
+// fillBoundary sets the k-th maxlen-tagged slice field met in traversal order (descending into one element
+// of every slice on the way) to length n(maxlen) with zero elements; returns that field's maxlen (0 if there
+// is no k-th field) and the field's element value.
+func fillBoundary(v reflect.Value, maxlen int, k *int, n func(m int) int) (int, reflect.Value) {
+	switch v.Kind() {
+	case reflect.Struct:
+		for _, f := range encFields(v.Type()) {
+			if m, el := fillBoundary(v.Field(f.idx), f.maxlen, k, n); m > 0 {
+				return m, el
+			}
+		}
+	case reflect.Slice:
+		if v.Type().Elem().Kind() == reflect.Uint8 {
+			return 0, reflect.Value{}
+		}
+		if maxlen > 0 {
+			if *k == 0 {
+				l := n(maxlen)
+				v.Set(reflect.MakeSlice(v.Type(), l, l))
+				if l > 0 {
+					return maxlen, v.Index(0)
+				}
+				return maxlen, reflect.Zero(v.Type().Elem())
+			}
+			*k--
+		}
+		v.Set(reflect.MakeSlice(v.Type(), 1, 1))
+		if m, el := fillBoundary(v.Index(0), 0, k, n); m > 0 {
+			return m, el
+		}
+		v.Set(reflect.Zero(v.Type()))
+	}
+	return 0, reflect.Value{}
+}
+
 func put32(b []byte, off int, x uint32) []byte {
 	c := append([]byte{}, b...)
 	c[off], c[off+1], c[off+2], c[off+3] = byte(x), byte(x>>8), byte(x>>16), byte(x>>24)
@@ -708,6 +743,27 @@ func c21Gen(r *Rng, tier string, emit func(string)) {
 			expQuick[r.Intn(len(names))] = true
 		}
 	}
+	// quick tier: three of the maxlen-65535 fields (seeded), one boundary length each
+	expField := map[[2]int]bool{}
+	expDelta := int(r.U64()%3) - 1
+	if tier != "thorough" {
+		var all [][2]int
+		for ni, name := range names {
+			for k := 0; ; k++ {
+				kk := k
+				m, _ := fillBoundary(reflect.ValueOf(codecs[name].New()).Elem(), 0, &kk, func(m int) int { return 0 })
+				if m == 0 {
+					break
+				}
+				if m > 512 {
+					all = append(all, [2]int{ni, k})
+				}
+			}
+		}
+		for i := 0; i < 3 && len(all) > 0; i++ {
+			expField[all[r.Intn(len(all))]] = true
+		}
+	}
 	for ni, name := range names {
 		c := codecs[name]
 		decOp := func(b []byte) { emit("dec " + name + " " + Hex(b)) }
@@ -718,6 +774,48 @@ func c21Gen(r *Rng, tier string, emit func(string)) {
 		decOp([]byte{1, 0, 0, 0})
 		decOp([]byte{0xff, 0xff, 0xff, 0xff})
 		decOp([]byte{0xff, 0xff, 0xff, 0x7f, 1, 2, 3})
+		// the maxlen family: every tagged slice field at maxlen-1, maxlen, maxlen+1 (encoder refusal, decoder
+		// refusal, and the same length prefixes in front of zero padding). Fields with maxlen 65535 cost
+		// about a second each in the driver: all of them in the thorough tier, a seeded few in the quick tier.
+		for k := 0; ; k++ {
+			kk := k
+			m, _ := fillBoundary(reflect.ValueOf(c.New()).Elem(), 0, &kk, func(m int) int { return 0 })
+			if m == 0 {
+				break
+			}
+			if m > 512 && tier != "thorough" && !expField[[2]int{ni, k}] {
+				continue
+			}
+			for d := -1; d <= 1; d++ {
+				if m > 512 && tier != "thorough" && d != expDelta {
+					continue
+				}
+				obj := c.New()
+				kk = k
+				_, el := fillBoundary(reflect.ValueOf(obj).Elem(), 0, &kk, func(m int) int { return m + d })
+				emit("enc " + name + " " + dumpStr(obj, false))
+				enc := encoder.Serialize(obj)
+				emit("dec " + name + " " + rle(enc, encoder.Serialize(el.Interface())))
+			}
+			// decoder side without a full payload: the prefix in front of zero padding
+			obj := c.New()
+			kk = k
+			fillBoundary(reflect.ValueOf(obj).Elem(), 0, &kk, func(m int) int { return 0 })
+			enc := encoder.Serialize(obj)
+			g := &genCtx{}
+			g.lenOffsets(reflect.ValueOf(obj).Elem(), 0, false)
+			for _, lf := range g.lens {
+				if lf.maxlen != m || lf.length != 0 {
+					continue
+				}
+				for _, x := range []int{m - 1, m, m + 1} {
+					for _, pad := range []int{x - 1, x, x + 9} {
+						emit("dec " + name + " " + Hex(put32(enc[:lf.off+4], lf.off, uint32(x))) + "." + strconv.Itoa(pad) + "*00")
+					}
+				}
+				break
+			}
+		}
 		for i := 0; i < perType; i++ {
 			g := &genCtx{r: r, budget: 200}
 			// one value in four may contain one boundary-length slice; the expensive ones (maxlen 65535
